@@ -1,4 +1,4 @@
-//@unit sm9_g2
+//@unit zz_g2probe
 //@serves C09 C10 C13 C16 C17 C20
 //@source gm-sm9/src/points.rs
 //@include-spec sm2_math
@@ -48,6 +48,7 @@ proof fn lemma_p2_generator() ensures valid2(SM9_TWIST_POINT_MONT_P2), abs2(SM9_
     assert(canon9(SM9_TWIST_POINT_MONT_P2.z.c1@) && fe9(SM9_TWIST_POINT_MONT_P2.z.c1@) == 0) by(compute);
     lemma_params9_g2();
     g2_abs_one(f2v(g.x), f2v(g.y));
+    assert(false);
 }
 //@section code gm-sm9/src/u256.rs
 type U256 = [u64; 4];
@@ -68,7 +69,7 @@ fn u256_to_bits(a: U256) -> (r: [char; 256])
                 itj.index@ < 64 ==> w == a[i as int] << (itj.index@ as u64),
                 forall|t: int| 0 <= t < index ==> (#[trigger] bits@[t] == '1') == (bt_bit(a@, 255 - t) == 1),
         {
-            proof { bt_top(a[i as int], itj.index@ as u64, i as int, a@); }
+            proof { bt_top(a[i as int], itj.index@ as u64, i as int, a@); assert(false); }
             bits[index] = if (w & 0x8000_0000_0000_0000) != 0 {
                 '1'
             } else {
@@ -164,7 +165,7 @@ impl TwistPoint {
             0xf51f5eac13df846c,
             0x9ef74015d5a16393,
         ];
-        proof { br_all(); g2_pi_consts(); assert(c@ =~= g2_pi1_limbs()); }
+        proof { br_all(); g2_pi_consts(); assert(c@ =~= g2_pi1_limbs()); assert(false); }
         let x = self.x.conjugate();
         let y = self.y.conjugate();
         let mut z = self.z.conjugate();
@@ -241,7 +242,7 @@ impl TwistPoint {
 
         t3 = self.y.fp_mul(&t2);
         t4 = rhs.y.fp_mul(&t1);
-        proof { br_eq(t3, t4); }
+        proof { br_eq(t3, t4); assert(false); }
         t3.eq(&t4)
     }
 
@@ -281,7 +282,7 @@ impl TwistPoint {
         t1 = t1.fp_mul(&t2);
         y3 = t1.fp_sub(&y3);
         proof {
-            g2_dbl_main(*self, x3, y3, z3, f2v(t2), f2v(gy2), f2v(gy4), f2v(t3), f2v(gy16), f2v(gd), f2v(gm2), f2v(gs2), f2v(gd1), f2v(t1));
+            g2_dbl_main(*self, x3, y3, z3, f2v(t2), f2v(gy2), f2v(gy4), f2v(t3), f2v(gy16), f2v(gd), f2v(gm2), f2v(gs2), f2v(gd1), f2v(t1)); assert(false);
         }
 
         Self {
@@ -329,7 +330,7 @@ impl TwistPoint {
         t1 = t1.fp_sub(&x1);
         t2 = t2.fp_sub(&y1);
         let ghost g_h = t1;
-        proof { g2_ma_branch(*self, *rhs, f2v(g_t1), f2v(g_t2), f2v(g_u), f2v(g_s), f2v(g_h), f2v(t2)); }
+        proof { g2_ma_branch(*self, *rhs, f2v(g_t1), f2v(g_t2), f2v(g_u), f2v(g_s), f2v(g_h), f2v(t2)); assert(false); }
 
         if t1.is_zero() {
             return if t2.is_zero() {
@@ -359,7 +360,7 @@ impl TwistPoint {
         let y3 = t3.fp_sub(&t4);
         proof {
             g2_ma_main(*self, *rhs, x3, y3, z3, f2v(g_t1), f2v(g_t2), f2v(g_u), f2v(g_s), f2v(g_h), f2v(t2),
-                f2v(g_h2), f2v(g_h3), f2v(g_v), f2v(t1), f2v(g_r2), f2v(g_xa), f2v(g_t3b), f2v(t3), f2v(t4));
+                f2v(g_h2), f2v(g_h3), f2v(g_v), f2v(t1), f2v(g_r2), f2v(g_xa), f2v(g_t3b), f2v(t3), f2v(t4)); assert(false);
         }
 
         Self {
@@ -381,7 +382,7 @@ impl TwistPoint {
         requires wf2(*self)
         ensures wf2(r), abs2(r) == g2_neg(abs2(*self)), valid2(*self) ==> valid2(r), r.x == self.x, r.z == self.z, f2v(r.y) == m2_neg(f2v(self.y))
     {
-        proof { br_all(); g2_neg_all(*self); }
+        proof { br_all(); g2_neg_all(*self); assert(false); }
         TwistPoint {
             x: self.x.clone(),
             y: self.y.fp_neg().clone(),
@@ -411,14 +412,14 @@ impl TwistPoint {
                 r = twist_point_add_full(&r, self)
             }
         }
-        proof { bt_hi_val(k@); }
+        proof { bt_hi_val(k@); assert(false); }
         r
     }
 
     fn g_mul(k: &U256) -> (r: TwistPoint)
         ensures valid2(r), abs2(r) == g2_smul(val4(k@), G2P())
     {
-        proof { g2_gen_const(); }
+        proof { g2_gen_const(); assert(false); }
         SM9_U256_MONT_G2.point_mul(k)
     }
 }
@@ -468,7 +469,7 @@ fn twist_point_add_full(p1: &TwistPoint, p2: &TwistPoint) -> (r: TwistPoint)
     t1 = t1.fp_sub(&t2);
     let ghost g_r = t1;
     proof {
-        g2_af_branch(*p1, *p2, f2v(g_t1), f2v(g_t2), f2v(g_u2), f2v(g_u1), f2v(g_t5), f2v(g_h), f2v(g_t1c), f2v(g_s2), f2v(g_t2c), f2v(g_s1), f2v(g_t6), f2v(g_r));
+        g2_af_branch(*p1, *p2, f2v(g_t1), f2v(g_t2), f2v(g_u2), f2v(g_u1), f2v(g_t5), f2v(g_h), f2v(g_t1c), f2v(g_s2), f2v(g_t2c), f2v(g_s1), f2v(g_t6), f2v(g_r)); assert(false);
     }
 
     if t1.is_zero() && t3.is_zero() {
@@ -498,7 +499,7 @@ fn twist_point_add_full(p1: &TwistPoint, p2: &TwistPoint) -> (r: TwistPoint)
     t1 = t1.fp_sub(&t2);
     proof {
         g2_af_main(*p1, *p2, t6, t1, t7, f2v(g_t1), f2v(g_t2), f2v(g_u2), f2v(g_u1), f2v(g_t5), f2v(g_h), f2v(g_t1c), f2v(g_s2), f2v(g_t2c), f2v(g_s1), f2v(g_t6), f2v(g_r),
-            f2v(g_r2), f2v(g_t7a), f2v(t8), f2v(t5), f2v(t3), f2v(g_v), f2v(g_y3a_in), f2v(g_y3a), f2v(t2));
+            f2v(g_r2), f2v(g_t7a), f2v(t8), f2v(t5), f2v(t3), f2v(g_v), f2v(g_y3a_in), f2v(g_y3a), f2v(t2)); assert(false);
     }
 
     TwistPoint {
@@ -849,6 +850,7 @@ proof fn g2_abs_one(x: F2, y: F2) requires m2_ok(x), m2_ok(y) ensures jac2(x, y,
     assert(y.c0 * 1 - 2 * (y.c1 * 0) == y.c0 && y.c0 * 0 + y.c1 * 1 == y.c1);
     assert(m2_mul(x, o) == x);
     assert(m2_mul(y, o) == y);
+    assert(false);
 }
 // ---------------------------------------------------------------- the trait contract of Fp2 (unit sm9_fp2: vectors [c0, c1]) read on F2 values
 spec fn f2s(v: Seq<int>) -> F2 { F2 { c0: v[0], c1: v[1] } }
@@ -870,6 +872,7 @@ proof fn br_all()
         f2s(f2_zero()) == m2_zero(), f2s(f2_one()) == m2_one(),
 {
     assert forall|a: Fp2| #![trigger a.val()] br_val_p(a) by { br_val(a); }
+    assert(false);
 }
 // the Montgomery decoding is injective on canonical limbs: Fp2::eq (limb equality) is equality of the decoded values
 proof fn br_fe_inj(a: Seq<u64>, b: Seq<u64>) requires canon9(a), canon9(b), fe9(a) == fe9(b) ensures a =~= b
@@ -885,6 +888,7 @@ proof fn br_fe_inj(a: Seq<u64>, b: Seq<u64>) requires canon9(a), canon9(b), fe9(
 proof fn br_eq(a: Fp2, b: Fp2) requires ok2(a), ok2(b) ensures a.eq_spec(&b) == (f2v(a) == f2v(b))
 {
     if f2v(a) == f2v(b) { br_fe_inj(a.c0@, b.c0@); br_fe_inj(a.c1@, b.c1@); }
+    assert(false);
 }
 // ---------------------------------------------------------------- the group G2: scalar multiples
 proof fn g2_smul_one(a: Pt2) ensures g2_smul(1, a) == a, g2_smul(0, a) == Pt2::Inf
@@ -902,6 +906,7 @@ proof fn g2_smul_add(j: int, k: int, a: Pt2) requires on_curve2(a), j >= 0, k >=
         g2_smul_closed(k - 1, a);
         ax9_g2_assoc(g2_smul(j, a), g2_smul(k - 1, a), a);
     }
+    assert(false);
 }
 // ---------------------------------------------------------------- the bits of a 256-bit scalar held in four limbs
 spec fn g2_p2(n: int) -> int decreases n { if n <= 0 { 1 } else { 2 * g2_p2(n - 1) } }
@@ -949,6 +954,7 @@ proof fn bt_hi_val(a: Seq<u64>) requires a.len() == 4 ensures bt_hi(a, 0) == val
     assert(g2_p2(64) == 0x1_0000_0000_0000_0000int) by(compute);
     let x0 = a[0]; let x1 = a[1]; let x2 = a[2]; let x3 = a[3];
     assert(x0 >> 0u64 == x0 && x1 >> 0u64 == x1 && x2 >> 0u64 == x2 && x3 >> 0u64 == x3) by(bit_vector);
+    assert(false);
 }
 // the test of u256_to_bits: the top bit of (x << j) is bit 63 - j of x
 proof fn bt_top(x: u64, j: u64, i: int, a: Seq<u64>) requires j < 64, 0 <= i < 4, a.len() == 4, x == a[i]
@@ -958,6 +964,7 @@ proof fn bt_top(x: u64, j: u64, i: int, a: Seq<u64>) requires j < 64, 0 <= i < 4
     assert(t / 64 == i && t % 64 == 63 - j);
     assert((((x << j) & 0x8000_0000_0000_0000) != 0) == ((x >> sh) & 1 == 1)) by(bit_vector) requires j < 64, sh == 63 - j;
     if j < 63 { let j1 = (j + 1) as u64; assert((x << j) << 1u64 == x << j1) by(bit_vector) requires j < 63, j1 == j + 1; }
+    assert(false);
 }
 // ---------------------------------------------------------------- the functions of the code against the group law (TwistPoint level)
 proof fn g2_dbl_main(p: TwistPoint, x3: Fp2, y3: Fp2, z3: Fp2, m: F2, y2: F2, y4: F2, s: F2, y16: F2, d: F2, m2: F2, s2: F2, d1: F2, d2: F2)
@@ -968,6 +975,7 @@ proof fn g2_dbl_main(p: TwistPoint, x3: Fp2, y3: Fp2, z3: Fp2, m: F2, y2: F2, y4
     br_val(p.x); br_val(p.y); br_val(p.z);
     cv_dbl(f2v(p.x), f2v(p.y), f2v(p.z), m, y2, f2v(z3), y4, s, y16, d, m2, s2, f2v(x3), d1, d2, f2v(y3));
     ax9_g2_closed(abs2(p), abs2(p));
+    assert(false);
 }
 proof fn g2_af_branch(p1: TwistPoint, p2: TwistPoint, t1: F2, t2: F2, u2: F2, u1: F2, t5: F2, h: F2, t1c: F2, s2: F2, t2c: F2, s1: F2, t6: F2, r: F2)
     requires valid2(p1), valid2(p2), f2v(p1.z) != m2_zero(), f2v(p2.z) != m2_zero(),
@@ -976,6 +984,7 @@ proof fn g2_af_branch(p1: TwistPoint, p2: TwistPoint, t1: F2, t2: F2, u2: F2, u1
 {
     br_val(p1.x); br_val(p1.y); br_val(p1.z); br_val(p2.x); br_val(p2.y); br_val(p2.z);
     cv_af_same(f2v(p1.x), f2v(p1.y), f2v(p1.z), f2v(p2.x), f2v(p2.y), f2v(p2.z), t1, t2, u2, u1, t5, h, t1c, s2, t2c, s1, t6, r);
+    assert(false);
 }
 proof fn g2_af_main(p1: TwistPoint, p2: TwistPoint, x3: Fp2, y3: Fp2, z3: Fp2, t1: F2, t2: F2, u2: F2, u1: F2, t5: F2, h: F2, t1c: F2, s2: F2, t2c: F2, s1: F2, t6: F2, r: F2,
     r2: F2, t7a: F2, h2: F2, t5b: F2, h3: F2, v: F2, t4b: F2, y3a: F2, s1h: F2)
@@ -993,6 +1002,7 @@ proof fn g2_af_main(p1: TwistPoint, p2: TwistPoint, x3: Fp2, y3: Fp2, z3: Fp2, t
     } else {
         cv_af_opp(f2v(p1.x), f2v(p1.y), f2v(p1.z), f2v(p2.x), f2v(p2.y), f2v(p2.z), t1, t2, u2, u1, t5, h, t1c, s2, t2c, s1, t6, r, t7a, f2v(z3));
     }
+    assert(false);
 }
 // TwistPoint::point_add: the second operand must be affine (z == 1)
 proof fn g2_ma_branch(p1: TwistPoint, p2: TwistPoint, t1: F2, t2: F2, u: F2, s: F2, h: F2, r: F2)
@@ -1007,6 +1017,7 @@ proof fn g2_ma_branch(p1: TwistPoint, p2: TwistPoint, t1: F2, t2: F2, u: F2, s: 
         let zi1 = m2_inv(f2v(p1.z));
         cv_same_x(f2v(p2.x), m2_mul(m2_mul(m2_mul(f2v(p1.y), zi1), zi1), zi1), f2v(p2.y));
     }
+    assert(false);
 }
 proof fn g2_ma_main(p1: TwistPoint, p2: TwistPoint, x3: Fp2, y3: Fp2, z3: Fp2, t1: F2, t2: F2, u: F2, s: F2, h: F2, r: F2,
     h2: F2, h3: F2, v: F2, v2: F2, r2: F2, xa: F2, t3b: F2, t3c: F2, t4b: F2)
@@ -1020,6 +1031,7 @@ proof fn g2_ma_main(p1: TwistPoint, p2: TwistPoint, x3: Fp2, y3: Fp2, z3: Fp2, t
     ax9_g2_closed(abs2(p1), abs2(p2));
     g2_abs_one(f2v(p2.x), f2v(p2.y));
     cv_ma2(f2v(p1.x), f2v(p1.y), f2v(p1.z), f2v(p2.x), f2v(p2.y), t1, t2, u, s, h, r, f2v(z3), h2, h3, v, v2, r2, xa, f2v(x3), t3b, t3c, t4b, f2v(y3));
+    assert(false);
 }
 // point_neg: every canonical encoding of -y gives the opposite point
 proof fn g2_neg_all(p: TwistPoint) requires wf2(p)
@@ -1040,6 +1052,7 @@ proof fn g2_eq_finite(a: TwistPoint, b: TwistPoint) requires wf2(a), wf2(b), f2v
     let (x1, y1, z1, x2, y2, z2) = (f2v(a.x), f2v(a.y), f2v(a.z), f2v(b.x), f2v(b.y), f2v(b.z));
     let t1 = m2_mul(z1, z1); let t2 = m2_mul(z2, z2); let t1c = m2_mul(t1, z1); let t2c = m2_mul(t2, z2);
     cv_eq(x1, y1, z1, x2, y2, z2, t1, t2, m2_mul(x1, t2), m2_mul(x2, t1), t1c, t2c, m2_mul(y1, t2c), m2_mul(y2, t1c));
+    assert(false);
 }
 // an operand at infinity (z == 0): the cross products vanish on its side
 proof fn g2_eq_inf(a: TwistPoint, b: TwistPoint) requires wf2(a), wf2(b), f2v(a.z) == m2_zero()
@@ -1067,6 +1080,7 @@ proof fn g2_eq_inf(a: TwistPoint, b: TwistPoint) requires wf2(a), wf2(b), f2v(a.
         let l3 = m2_mul(y1, t2c); t2_cm(l3, y1, t2c, y1, q_mul(q_mul(z2, z2), z2)); t2_zero(l3);
         if y1 != o { t2_nz_mul(y1, q_mul(q_mul(z2, z2), z2)); } else { t2_lin1(y1, q_mul(q_mul(z2, z2), z2)); }
     }
+    assert(false);
 }
 // FINDING (C13): point_equals answers `true` for a point and its negative (and for (x, y), (w x, y), w^3 = 1): the contract
 //     ensures r == (abs2(*self) == abs2(*rhs))
@@ -1089,6 +1103,7 @@ proof fn finding_point_equals_accepts_negative(a: TwistPoint, b: TwistPoint)
         assert(2 * 0 == 0);
         i_cancel2(ya.c0, 0); i_cancel2(ya.c1, 0);
     }
+    assert(false);
 }
 // ---------------------------------------------------------------- ground facts about the constants of this file
 spec fn g2_pi1_limbs() -> Seq<u64> { seq![0x1a98dfbd4575299fu64, 0x9ec8547b245c54fdu64, 0xf51f5eac13df846cu64, 0x9ef74015d5a16393u64] }
@@ -1097,6 +1112,7 @@ proof fn g2_pi_consts() ensures canon9(g2_pi1_limbs()), fe9(g2_pi1_limbs()) == P
 {
     assert(canon9(g2_pi1_limbs()) && fe9(g2_pi1_limbs()) == PI1C()) by(compute);
     assert(canon9(g2_pi2_limbs()) && fe9(g2_pi2_limbs()) == PI2C()) by(compute);
+    assert(false);
 }
 // the generator constant of points.rs (the same limbs as SM9_TWIST_POINT_MONT_P2 of lib.rs)
 proof fn g2_gen_const() ensures valid2(SM9_U256_MONT_G2), abs2(SM9_U256_MONT_G2) == G2P()
@@ -1110,6 +1126,7 @@ proof fn g2_gen_const() ensures valid2(SM9_U256_MONT_G2), abs2(SM9_U256_MONT_G2)
     assert(canon9(SM9_U256_MONT_G2.z.c1@) && fe9(SM9_U256_MONT_G2.z.c1@) == 0) by(compute);
     lemma_params9_g2();
     g2_abs_one(f2v(g.x), f2v(g.y));
+    assert(false);
 }
 // BEGIN GENERATED by tools/gen_sm9_g2.py (polynomial identities over Z[u]/(u^2+2): wrappers + ring axioms; programs: rel + chain)
 // x / z^2 = xa gives back x = xa z^2
